@@ -8,6 +8,8 @@ package esib
 
 import (
 	"encoding/json"
+	"go/ast"
+	"go/types"
 	"os"
 	"strings"
 	"sync"
@@ -135,4 +137,43 @@ func TestClones(t *testing.T) {
 	res := CheckClones(run, prog(t, "amd64"), "SIB-clone")
 	dump(t, res)
 	finish(t, run)
+}
+
+func TestSkeletonDump(t *testing.T) {
+	p := prog(t, "amd64")
+	kn := newKnowledge(p)
+	if len(kn.missing) > 0 {
+		t.Fatalf("missing anchors %v", kn.missing)
+	}
+	sc := kn.pk.Types.Scope()
+	_ = sc
+	for _, f := range kn.pk.Syntax {
+		name := p.Fset.Position(f.Pos()).Filename
+		if !strings.Contains(name, "scalar_mul_") && !strings.HasSuffix(name, "window.go") {
+			continue
+		}
+		for _, d := range f.Decls {
+			fd, ok := d.(*ast.FuncDecl)
+			if !ok || fd.Body == nil {
+				continue
+			}
+			fn, _ := kn.pk.TypesInfo.Defs[fd.Name].(*types.Func)
+			sk := kn.extract(fn)
+			sk.normalize()
+			t.Logf("%s\n    NF: %s\n    problems: %v", sk.Func, sk.print(nil), sk.Problems)
+		}
+	}
+}
+
+func TestSkeletons(t *testing.T) {
+	for _, id := range []string{"amd64", "purego"} {
+		run := report.New("T", "quick", 0)
+		run.SetConfig(id)
+		d := CheckDispatch(run, prog(t, id), prog(t, "purego"), "SIB-dispatch")
+		res := CheckSkeletons(run, prog(t, id), d.Pairs, "SIB-skel")
+		if id == "amd64" {
+			dump(t, res)
+		}
+		finish(t, run)
+	}
 }
